@@ -9,7 +9,7 @@ mkdir -p $S
 trap 'git -C /repo worktree remove --force $S/repo 2>/dev/null; rm -rf $S' EXIT
 git -C /repo worktree add -q --detach $S/repo HEAD
 git -C $S/repo apply "$PATCH"
-rsync -a --exclude .git --exclude evidence /verif/ $S/verif/ || [ $? -eq 24 ]   # 24: files vanished during a concurrent build
+rsync -a --exclude .git --exclude evidence ${VERIF_SRC:-/verif}/ $S/verif/ || [ $? -eq 24 ]   # 24: files vanished during a concurrent build
 for p in "$@"; do
   echo "== $p on $(basename $(dirname $PATCH))"
   (cd $S/verif && BU_REPO=$S/repo BU_DEV=${BU_DEV:-0} ./check $p $TIER 2>&1 | tail -${TAIL:-4}) || true
